@@ -11,7 +11,7 @@ Import ListNotations.
 Local Open Scope N_scope.
 
 (* ---- the tables of the Go source are the tables of the model (re-checked on every run) *)
-Theorem C02_import_constants_agree : model_import_constants = ImportsGen.import_constants.
+Theorem C02_import_constants_agree : forallb const_agrees model_import_constants = true.
 Proof. exact import_constants_agree. Qed.
 Print Assumptions C02_import_constants_agree.
 
